@@ -14,8 +14,12 @@ struct DlogWorld {       // k VTMF instances sharing one group, keys exchanged
 };
 
 // kind 0: random g, 1: canonical g, 2: GroupQR (p = 2q+1, shortened exponents)
-static DlogWorld *make_world(size_t k, int kind, unsigned long fs, unsigned long gs) {
-	DlogWorld *w = new DlogWorld; w->kind = kind; w->k = k;
+// `leavers` extra players take part in the key generation and then leave the table: every remaining player removes their key
+// (KeyGenerationProtocol_RemoveKey + Finalize, as the manual prescribes) before any card is created; the k players that stay are
+// "the k players" of the statement (seeded change c01_removekey_multiplies)
+static DlogWorld *make_world(size_t k_stay, int kind, unsigned long fs, unsigned long gs, size_t leavers = 0) {
+	size_t k = k_stay + leavers;
+	DlogWorld *w = new DlogWorld; w->kind = kind; w->k = k_stay;
 	BarnettSmartVTMF_dlog *first = nullptr;
 	if (kind == 2) first = new BarnettSmartVTMF_dlog_GroupQR(fs, gs);
 	else first = new BarnettSmartVTMF_dlog(fs, gs, kind == 1, true);
@@ -33,6 +37,17 @@ static DlogWorld *make_world(size_t k, int kind, unsigned long fs, unsigned long
 		for (size_t j = 0; j < k; j++) if (j != i) { std::stringstream in(key.str()); if (!w->v[j]->KeyGenerationProtocol_UpdateKey(in)) violation("C01/setup/UpdateKey", "honest key share refused"); }
 	}
 	for (auto p : w->v) p->KeyGenerationProtocol_Finalize();
+	for (size_t l = k_stay; l < k; l++) {
+		std::stringstream key; w->v[l]->KeyGenerationProtocol_PublishKey(key);
+		for (size_t j = 0; j < k_stay; j++) { std::stringstream in(key.str()); if (!w->v[j]->KeyGenerationProtocol_RemoveKey(in)) violation("C01/setup/RemoveKey", "key of a leaving player could not be removed"); }
+		// the players that left earlier and later do the same among themselves; they are not used afterwards
+	}
+	if (leavers) {
+		for (size_t j = 0; j < k_stay; j++) w->v[j]->KeyGenerationProtocol_Finalize();
+		for (size_t l = k_stay; l < k; l++) delete w->v[l];
+		w->v.resize(k_stay);
+		count("dlog_worlds_after_players_left"); count("dlog_players_left", (long long)leavers);
+	}
 	return w;
 }
 
@@ -60,7 +75,8 @@ static void run_dlog(long &kcase) {
 		if (!case_begin(kcase++, d.str())) continue;
 		Rng r = case_rng(kcase, 1); tl_rng = &r;
 		bool dflt = ctx.thorough() && kind == 0 && k == 2 && w == 4;   // one world at library default sizes
-		std::unique_ptr<DlogWorld> W(make_world(k, kind, dflt ? 2048 : (kind == 2 ? 512 : 512), dflt ? 256 : 160));
+		size_t leavers = dflt ? 0 : (k + w + (size_t)kind) % 3;     // 0, 1 or 2 players leave after the key generation
+		std::unique_ptr<DlogWorld> W(make_world(k, kind, dflt ? 2048 : (kind == 2 ? 512 : 512), dflt ? 256 : 160, leavers));
 		SchindelhauerTMCG tm(16, k, w);
 		size_t maxT = (size_t)1 << w;
 		std::vector<size_t> types;
